@@ -82,6 +82,17 @@ impl WalIndex {
         fs::write(&tmp_path, &bytes)?;
         fs::File::open(&tmp_path)?.sync_all()?;
         fs::rename(&tmp_path, &self.path)?;
+        // the rename is only durable once the directory has been synced
+        sync_parent_dir(&self.path)?;
         Ok(())
     }
+}
+
+/// Syncs the directory that holds `path`, making a rename or creation inside it durable.
+pub(super) fn sync_parent_dir(path: &str) -> std::io::Result<()> {
+    let parent = match std::path::Path::new(path).parent() {
+        Some(p) if !p.as_os_str().is_empty() => p.to_path_buf(),
+        _ => std::path::PathBuf::from("."),
+    };
+    fs::File::open(parent)?.sync_all()
 }
